@@ -420,6 +420,9 @@ def call_lcs(cid, P, ism, symmetry, ctx=''):
     # the real call, in the iteration order of the real constraints set: same mappings, same multiplicities
     add('%s-tlcs%d' % (cid, int(symmetry)), line('tlcs', P.gn, P.ge, P.sn, P.se, cons),
         enc([[list(pt) for pt in m] for m in sorted(out, key=lambda m: [x for pt in m for x in pt])]), [], nontriv)
+    if symmetry and len(sg) and len(g):
+        # hypothesis constraintsValidB of theorem ismags_lcs_sym_cover on the constraints of this call
+        add('%s-tvalid' % cid, line('tvalid', P.sn, P.se, sorted(cons)), '1', [], nontriv and naut > 1)
     if choices is not None:
         add('%s-qlcs%d' % (cid, int(symmetry)), line('qlcs', P.gn, P.ge, P.sn, P.se, cons) + ' ' + choices,
             enc([[list(pt) for pt in m] for m in out]), [], nontriv)
